@@ -42,7 +42,6 @@ DoMerge == \E p \in Idxs, l \in Labels :
     /\ p \in Occ(t)                      \* vacant index: undocumented index panic, not generated
     /\ Step(MergeChild(t, p, l, K), Op("merge_child", p, l, 0))
 DoUpdate == \E p \in Idxs, v \in Vals :
-    /\ Cardinality(Vals) > 1 \/ p \notin Occ(t)
     /\ Step(UpdateNode(t, p, v), Op("update_node", p, 0, v))
 DoReRoot == \E v \in Vals :
     /\ REROOT /\ CanInsert(t)
